@@ -11,7 +11,7 @@ TIERS = {
 }
 
 ENV = {'PYTHONHASHSEED': '0', 'OMP_NUM_THREADS': '1', 'OPENBLAS_NUM_THREADS': '1',
-       'MKL_NUM_THREADS': '1', 'NUMEXPR_NUM_THREADS': '1', 'MPLBACKEND': 'Agg',
+       'MKL_NUM_THREADS': '1', 'NUMEXPR_NUM_THREADS': '1', 'DUCC0_NUM_THREADS': '1', 'MPLBACKEND': 'Agg',
        'PYTHONDONTWRITEBYTECODE': '1'}
 
 
